@@ -407,7 +407,7 @@ func init() {
 		NonTrivial: func(p *Program, r *Result) bool { return r.Ops >= 3 },
 		Rule:       "failed reload (unreadable file, parse error, compile error, unloadable secret, restart-required change) on generated stateless configurations; a fixed probe set of requests must give identical outcomes (status, Allow, enqueued route/target set) before and after, and the original file must still reload; non-trivial = >=1 probe before and after; distinct = (fault kind) x config shapes",
 		RealStub:   sysRealStub,
-		Quick:      600, Thorough: 20000,
+		Quick:      2500, Thorough: 60000,
 	})
 	Register(&CheckSpec{
 		Prop: "C18", World: "atomic",
@@ -417,6 +417,6 @@ func init() {
 		},
 		Rule:     "successful reload between old/new configurations that differ in what a request reads in separate steps (auth on/off, route removed/added/moved, match, limits), interleaved with in-flight requests at every statement of reloadConfig and ingress ServeHTTP (PRNG-chosen schedule); twin oracle: outcome under the old configuration (quiescent node before) or under the new one (quiescent node after); non-trivial = reload applied and at least one probe distinguishes old from new; distinct = distinct interleavings",
 		RealStub: sysRealStub,
-		Quick:    800, Thorough: 40000,
+		Quick:    3000, Thorough: 80000,
 	})
 }
